@@ -20,7 +20,8 @@ RULE = (
     "or is a batch mixing >= 2 entry kinds; distinct by hash of (text, configuration)."
 )
 ASSUMPTIONS = [
-    "R12: bodies using NaN/Infinity literals or overflowing to a non-finite float are skipped (tested exactly with parse_constant / math.isfinite)",
+    "R12: bodies using the NaN/Infinity literals are skipped (tested exactly with parse_constant); bodies whose standard number spelling overflows to a non-finite float (1e400) are inside the domain",
+    "KNOWN FINDING C02/overflowing-number-echoed-as-nonstandard-literal: such a number echoed in the reply (id, result) is written as Infinity, which is not JSON; cases of that exact shape are counted and excluded",
     "R1: the empty body may be answered -32600 or -32700",
     "registered callables return JSON-representable values or raise ordinary exceptions (unconvertible return values only with class translation on)",
     "Python's json with parse_constant is the reference RFC 8259 parser; replies are parsed strictly",
@@ -43,9 +44,9 @@ def oracle_wellformed_only(case):
     from jsonrpclib.config import Config
 
     text = case["body"][1]
+    overflow = False
     try:
-        if not gen.all_finite(gen.strict_json_loads(text)):
-            raise Skip()   # R12: value reached by an overflowing spelling
+        overflow = not gen.all_finite(gen.strict_json_loads(text))
     except gen.NonStandard:
         raise Skip()
     except (ValueError, RecursionError):
@@ -56,7 +57,7 @@ def oracle_wellformed_only(case):
         out = disp._marshaled_dispatch(text, dm)
     except Exception as ex:
         fail("C02/dispatcher-raised:%s" % type(ex).__name__, "_marshaled_dispatch raised %s: %s" % (type(ex).__name__, str(ex)[:200]), text[:300])
-    got, single = refmodel.parse_reply(out)
+    got, single = refmodel.parse_reply(out, overflow=overflow)
     for o in got:
         refmodel.check_response_object(o)
     return Info(nt=True, classes=[case.get("cls", "other"), "v%.1f" % case["version"]],
@@ -74,9 +75,9 @@ def oracle_http(case):
         raw = text.encode("utf-8")
     except UnicodeEncodeError:
         raise Skip()   # not a character sequence that can travel
+    overflow = False
     try:
-        if not gen.all_finite(gen.strict_json_loads(text)):
-            raise Skip()   # R12
+        overflow = not gen.all_finite(gen.strict_json_loads(text))
     except gen.NonStandard:
         raise Skip()
     except (ValueError, RecursionError):
@@ -104,7 +105,7 @@ def oracle_http(case):
         fail("C02/http-body", "HTTP reply %r differs from the dispatcher's text %r" % (reply_text[:200], expected[:200]))
     if len(registry.log) != 2 * n_before:
         fail("C02/http-invocations", "the handler path invoked callables %d times, the direct path %d times" % (len(registry.log) - n_before, n_before))
-    got_objs, single = refmodel.parse_reply(reply_text)
+    got_objs, single = refmodel.parse_reply(reply_text, overflow=overflow)
     for o in got_objs:
         refmodel.check_response_object(o)
     classes = ["http", "v%.1f" % case["version"], "body:" + case["body"][0], "reads:%d" % min(len(reads), 5)]
